@@ -70,6 +70,23 @@ func constLeaves(v ssa.Value, seen map[ssa.Value]bool, out *[]struct {
 		}
 		return true
 	}
+	// a same-module helper that only computes the flag word (e.g.
+	// contentOpenFlags(wantDirectory)): every value it can return is a leaf
+	if call, ok := v.(*ssa.Call); ok {
+		if callee := call.Call.StaticCallee(); callee != nil && eng.IsModuleFunc(callee) && eng.PureHelper(callee) && callee.Signature.Results().Len() == 1 {
+			rs := eng.Returns(callee)
+			if len(rs) == 0 {
+				return false
+			}
+			for _, r := range rs {
+				if !constLeaves(eng.RetResults(r)[0], seen, out, r.Block()) {
+					return false
+				}
+			}
+			return true
+		}
+		return false
+	}
 	if b, ok := v.(*ssa.BinOp); ok {
 		// fold bit operations on constants (go/ssa does not)
 		x, okx := eng.ConstInt64(b.X)
